@@ -51,7 +51,7 @@ def movers(rng, n):
 def edge_program(rng):
     """label-dependent immediate whose final value is near an RVC operand-set edge"""
     items = [{'k': 'label', 'name': 'S'}]
-    kind = rng.randrange(8)
+    kind = rng.randrange(10)
     rd = {'r': rng.choice([8, 9, 15, 5, 1, 2])}
     r8 = {'r': rng.randrange(8, 16)}
     target = rng.choice([0, 4, 8, 28, 32, 36, 60, 64, 124, 128, 252, 256, 496, 508, 512, 1020, 1024, 0x7fc, 0x800, 0x804, 0xffc, 0x1000, 0x1004,
@@ -71,9 +71,17 @@ def edge_program(rng):
         use = {'k': 'inst', 'm': 'addi', 'ops': [{'r': 2}, {'r': 2}, {'diff': ['T', 'M']}]}
     elif kind == 6:
         use = {'k': 'inst', 'm': 'andi', 'ops': [r8, dict(r8), {'lo': {'pos': ['T', {'i': rng.choice([0, -32, 0x1000])}]}}]}
-    else:
+    elif kind == 7:
         use = {'k': 'inst', 'm': 'jalr', 'ops': [{'r': rng.choice([0, 1])}, rd, {'lo': {'lab': 'T'}}]}
+    else:
+        # the distance to an absolute address (a constant): position-relative although no label is involved.  TABS is placed below
+        # so that the low 12 bits of the distance are around 0 where the compression pass looks at them
+        use = {'k': 'pseudo', 'm': 'li', 'ops': [rd, {'off': 'TABS'} if kind == 8 else rng.choice([{'lo': {'off': 'TABS'}}, {'hi': {'off': 'TABS'}}])]}
     before = rng.random() < 0.5
+    if kind >= 8 and rng.random() < 0.6:
+        # only an `align` in front: its pessimistic size is what the compression pass sees, its real padding what remains
+        pre = [{'k': 'seq', 'd': 'shorts', 'vals': [0x1234] * rng.choice([1, 2, 3])}, {'k': 'align', 'n': rng.choice([4, 8, 16])}]
+        before = False
     body = pre + [{'k': 'label', 'name': 'M'}]
     mid = movers(rng, rng.randint(0, 5))
     if kind in (3, 5):
@@ -94,6 +102,10 @@ def edge_program(rng):
     if not before:
         items.append(use)
     items += [{'k': 'label', 'name': 'T'}, {'k': 'pseudo', 'm': 'nop', 'ops': []}]
+    if kind >= 8:
+        at = sum(randprog.pess_size(it) for it in items[:items.index(use)])
+        v = at + rng.choice([0, 0x1000, 0x5000, 0x20000000]) + rng.choice([-40, -34, -32, -30, -8, -4, -2, 0, 0, 0, 0, 0, 2, 4, 8, 28, 30, 32, 34, 40])
+        items.insert(0, {'k': 'const', 'name': 'TABS', 'value': v, 'text': rng.choice([str, hex])(v)})
     return items
 
 
